@@ -128,6 +128,27 @@ theorem finish_failure_closes (s : State) (t : TxnId) (hcm : commits s (.finish 
     ∀ op, step (step s (.finish t)).1 op = ((step s (.finish t)).1, [], .closed) :=
   Proofs.TwoPC.finish_failure_closes s t hcm ha
 
+/-- "Blocks no one" when the abort itself fails: if `_abort` raises inside `tpc_abort(t)` (its
+    truncate, or the removal of a blob file, fails) the call raises, the committed core is untouched,
+    and the `finally` clause has released the commit lock: `tpc_begin` of any other transaction with
+    admissible metadata is enabled and answers `ok`. -/
+theorem abort_fault_releases_lock (s : State) (t : TxnId) (hopen : s.closed = false)
+    (ht : s.txn = some t) :
+    (doAbortFault s t).2.2 = .errIO ∧ (doAbortFault s t).1.commitLock = none ∧
+    canBegin (doAbortFault s t).1 = true ∧ core (doAbortFault s t).1 = core s ∧
+    ∀ t₂ tid st ul dl el, t₂ ≠ t → ul ≤ 65535 → dl ≤ 65535 → el ≤ 65535 →
+      (step (doAbortFault s t).1 (.begin t₂ tid st ul dl el)).2.2 = .ok := by
+  have h : doAbortFault s t = ({ s with commitLock := none, armed := none }, [.fault .data], .errIO) := by
+    simp [doAbortFault, hopen, ht]
+  rw [h]
+  refine ⟨rfl, rfl, by simp [canBegin, hopen], rfl, ?_⟩
+  intro t₂ tid st ul dl el hne hul hdl hel
+  have h1 : ¬ ul > 65535 := by omega
+  have h2 : ¬ dl > 65535 := by omega
+  have h3 : ¬ el > 65535 := by omega
+  have hne' : ¬ (t = t₂) := fun e => hne e.symm
+  simp [step, hopen, doBegin, ht, hne', h1, h2, h3]
+
 /-! ### MappingStorage (optionally under a BlobStorage) and DemoStorage -/
 
 /-- C05 for MappingStorage: observable state restored, commit lock free, from every reachable
